@@ -151,7 +151,9 @@ impl Space for Ffi {
                 let l = l.filter(|u| u.is_time_unit() || *u == Unit::Auto);
                 let s = s.filter(|u| u.is_time_unit());
                 pairs!(out, n, "PlainTime::until", attrs, snap_dur_ffi, snap_dur_core, ft.until(&ft2, f_settings(l, s, mo, inc)), temporal_rs::options::RoundingIncrement::try_new(inc.unwrap_or(1)).and_then(|_| ct.until(&ct2, diff(l, s, mo, inc.filter(|x| *x > 0)))));
+                pairs!(out, n, "PlainTime::until(equal operands)", attrs, snap_dur_ffi, snap_dur_core, ft.until(&ft, f_settings(l, s, mo, inc)), temporal_rs::options::RoundingIncrement::try_new(inc.unwrap_or(1)).and_then(|_| ct.until(&ct, diff(l, s, mo, inc.filter(|x| *x > 0)))));
                 pairs!(out, n, "PlainTime::since", attrs, snap_dur_ffi, snap_dur_core, ft.since(&ft2, f_settings(l, s, mo, inc)), temporal_rs::options::RoundingIncrement::try_new(inc.unwrap_or(1)).and_then(|_| ct.since(&ct2, diff(l, s, mo, inc.filter(|x| *x > 0)))));
+                pairs!(out, n, "PlainTime::since(equal operands)", attrs, snap_dur_ffi, snap_dur_core, ft.since(&ft, f_settings(l, s, mo, inc)), temporal_rs::options::RoundingIncrement::try_new(inc.unwrap_or(1)).and_then(|_| ct.since(&ct, diff(l, s, mo, inc.filter(|x| *x > 0)))));
             }
             for (u, inc, mo) in [(Unit::Minute, Some(15.0), Some(RoundingMode::Ceil)), (Unit::Nanosecond, None, None), (Unit::Hour, Some(5.0), None), (Unit::Day, None, None), (Unit::Second, Some(f64::NAN), None)] {
                 pairs!(out, n, "PlainTime::round", attrs, snap_time_ffi, snap_time_core, ft.round(f_unit(u), inc, mo.map(fopt::RoundingMode::from)), ct.round(u, inc, mo));
@@ -203,7 +205,9 @@ impl Space for Ffi {
                 let l = l.filter(|u| !u.is_time_unit());
                 let s = s.filter(|u| !u.is_time_unit());
                 pairs!(out, n, "PlainDate::until", attrs, snap_dur_ffi, snap_dur_core, fdt0.until(&other_f, f_settings(l, s, mo, inc)), temporal_rs::options::RoundingIncrement::try_new(inc.unwrap_or(1)).and_then(|_| cdt0.until(&other_c, diff(l, s, mo, inc.filter(|x| *x > 0)))));
+                pairs!(out, n, "PlainDate::until(equal operands)", attrs, snap_dur_ffi, snap_dur_core, fdt0.until(&fdt0, f_settings(l, s, mo, inc)), temporal_rs::options::RoundingIncrement::try_new(inc.unwrap_or(1)).and_then(|_| cdt0.until(&cdt0, diff(l, s, mo, inc.filter(|x| *x > 0)))));
                 pairs!(out, n, "PlainDate::since", attrs, snap_dur_ffi, snap_dur_core, fdt0.since(&other_f, f_settings(l, s, mo, inc)), temporal_rs::options::RoundingIncrement::try_new(inc.unwrap_or(1)).and_then(|_| cdt0.since(&other_c, diff(l, s, mo, inc.filter(|x| *x > 0)))));
+                pairs!(out, n, "PlainDate::since(equal operands)", attrs, snap_dur_ffi, snap_dur_core, fdt0.since(&fdt0, f_settings(l, s, mo, inc)), temporal_rs::options::RoundingIncrement::try_new(inc.unwrap_or(1)).and_then(|_| cdt0.since(&cdt0, diff(l, s, mo, inc.filter(|x| *x > 0)))));
             }
             for u in [Unit::Year, Unit::Month, Unit::Week, Unit::Day] {
                 pairs!(out, n, "Calendar::date_until", attrs, snap_dur_ffi, snap_dur_core, fc.date_until(iso(y, m, dd), iso(2023, 11, 30), f_unit(u)), ccal.date_until(&ciso, &iso_date(2023, 11, 30), u));
@@ -252,7 +256,9 @@ impl Space for Ffi {
             }
             for (l, s, mo, inc) in SETTINGS {
                 pairs!(out, n, "PlainDateTime::until", attrs, snap_dur_ffi, snap_dur_core, f0.until(&of, f_settings(l, s, mo, inc)), temporal_rs::options::RoundingIncrement::try_new(inc.unwrap_or(1)).and_then(|_| c0.until(&oc, diff(l, s, mo, inc.filter(|x| *x > 0)))));
+                pairs!(out, n, "PlainDateTime::until(equal operands)", attrs, snap_dur_ffi, snap_dur_core, f0.until(&f0, f_settings(l, s, mo, inc)), temporal_rs::options::RoundingIncrement::try_new(inc.unwrap_or(1)).and_then(|_| c0.until(&c0, diff(l, s, mo, inc.filter(|x| *x > 0)))));
                 pairs!(out, n, "PlainDateTime::since", attrs, snap_dur_ffi, snap_dur_core, f0.since(&of, f_settings(l, s, mo, inc)), temporal_rs::options::RoundingIncrement::try_new(inc.unwrap_or(1)).and_then(|_| c0.since(&oc, diff(l, s, mo, inc.filter(|x| *x > 0)))));
+                pairs!(out, n, "PlainDateTime::since(equal operands)", attrs, snap_dur_ffi, snap_dur_core, f0.since(&f0, f_settings(l, s, mo, inc)), temporal_rs::options::RoundingIncrement::try_new(inc.unwrap_or(1)).and_then(|_| c0.since(&c0, diff(l, s, mo, inc.filter(|x| *x > 0)))));
                 pairs!(out, n, "PlainDateTime::round", attrs, snap_dt_ffi, snap_dt_core, f0.round(f_round(l, s, mo, inc)), temporal_rs::options::RoundingIncrement::try_new(inc.unwrap_or(1)).and_then(|_| c0.round(round_opts(l, s, mo, inc.filter(|x| *x > 0)))));
             }
             pairs!(out, n, "PlainDateTime::to_plain_date", attrs, snap_date_ffi, snap_date_core, f0.to_plain_date(), c0.to_plain_date());
@@ -286,7 +292,9 @@ impl Space for Ffi {
                 let l = l.filter(|u| !u.is_time_unit());
                 let s = s.filter(|u| !u.is_time_unit());
                 pairs!(out, n, "PlainYearMonth::until", attrs, snap_dur_ffi, snap_dur_core, f0.until(&of, f_settings(l, s, mo, inc)), temporal_rs::options::RoundingIncrement::try_new(inc.unwrap_or(1)).and_then(|_| c0.until(&oc, diff(l, s, mo, inc.filter(|x| *x > 0)))));
+                pairs!(out, n, "PlainYearMonth::until(equal operands)", attrs, snap_dur_ffi, snap_dur_core, f0.until(&f0, f_settings(l, s, mo, inc)), temporal_rs::options::RoundingIncrement::try_new(inc.unwrap_or(1)).and_then(|_| c0.until(&c0, diff(l, s, mo, inc.filter(|x| *x > 0)))));
                 pairs!(out, n, "PlainYearMonth::since", attrs, snap_dur_ffi, snap_dur_core, f0.since(&of, f_settings(l, s, mo, inc)), temporal_rs::options::RoundingIncrement::try_new(inc.unwrap_or(1)).and_then(|_| c0.since(&oc, diff(l, s, mo, inc.filter(|x| *x > 0)))));
+                pairs!(out, n, "PlainYearMonth::since(equal operands)", attrs, snap_dur_ffi, snap_dur_core, f0.since(&f0, f_settings(l, s, mo, inc)), temporal_rs::options::RoundingIncrement::try_new(inc.unwrap_or(1)).and_then(|_| c0.since(&c0, diff(l, s, mo, inc.filter(|x| *x > 0)))));
             }
             pairs!(out, n, "PlainYearMonth::to_plain_date", attrs, snap_date_ffi, snap_date_core, f0.to_plain_date(), c0.to_plain_date());
             for nm in ["iso_year", "padded_iso_year_string", "iso_month", "year", "month", "month_code", "in_leap_year", "days_in_month", "days_in_year", "months_in_year", "era", "era_year", "calendar"] {
@@ -339,7 +347,9 @@ impl Space for Ffi {
                     let l = l.filter(|u| u.is_time_unit() || *u == Unit::Auto);
                     let s = s.filter(|u| u.is_time_unit());
                     pairs!(out, n, "Instant::until", ia, snap_dur_ffi, snap_dur_core, f0.until(&f1, f_settings(l, s, mo, inc)), temporal_rs::options::RoundingIncrement::try_new(inc.unwrap_or(1)).and_then(|_| c0.until(&c1, diff(l, s, mo, inc.filter(|x| *x > 0)))));
+                    pairs!(out, n, "Instant::until(equal operands)", ia, snap_dur_ffi, snap_dur_core, f0.until(&f0, f_settings(l, s, mo, inc)), temporal_rs::options::RoundingIncrement::try_new(inc.unwrap_or(1)).and_then(|_| c0.until(&c0, diff(l, s, mo, inc.filter(|x| *x > 0)))));
                     pairs!(out, n, "Instant::since", ia, snap_dur_ffi, snap_dur_core, f0.since(&f1, f_settings(l, s, mo, inc)), temporal_rs::options::RoundingIncrement::try_new(inc.unwrap_or(1)).and_then(|_| c0.since(&c1, diff(l, s, mo, inc.filter(|x| *x > 0)))));
+                    pairs!(out, n, "Instant::since(equal operands)", ia, snap_dur_ffi, snap_dur_core, f0.since(&f0, f_settings(l, s, mo, inc)), temporal_rs::options::RoundingIncrement::try_new(inc.unwrap_or(1)).and_then(|_| c0.since(&c0, diff(l, s, mo, inc.filter(|x| *x > 0)))));
                     pairs!(out, n, "Instant::round", ia, snap_inst_ffi, snap_inst_core, f0.round(f_round(l, s, mo, inc)), temporal_rs::options::RoundingIncrement::try_new(inc.unwrap_or(1)).and_then(|_| c0.round(round_opts(l, s, mo, inc.filter(|x| *x > 0)))));
                 }
             }
